@@ -216,7 +216,8 @@ var caseNo int
 var collect func(error)
 
 type prep struct {
-	uploadID string
+	versionID string
+	uploadID  string
 	parts    []s3c.Part
 }
 
@@ -230,6 +231,16 @@ func setup(cl *s3c.Client, bkt, key string, c caseA) (*prep, error) {
 	}
 	p := &prep{}
 	switch c.Op {
+	case "delver":
+		// the key has two versions: w1 (archived) and w2 (current, the one that will be deleted by id)
+		r, err := cl.Call("PUT", path, nil, metaOf(2), bodies[2])
+		if err != nil || !r.OK() {
+			return nil, fmt.Errorf("second version: %v %v", r, err)
+		}
+		p.versionID = r.Header.Get("x-amz-version-id")
+		if p.versionID == "" {
+			return nil, fmt.Errorf("no version id for the second version")
+		}
 	case "mpu", "part":
 		r, err := cl.Call("POST", path, s3c.Q("uploads", ""), metaOf(2), nil)
 		if err != nil {
@@ -265,6 +276,8 @@ func issue(cl *s3c.Client, bkt, key string, c caseA, p *prep) (*s3c.Resp, error)
 		return cl.Call("PUT", path, s3c.Q("partNumber", "1", "uploadId", p.uploadID), nil, bodies[2])
 	case "delete":
 		return cl.Call("DELETE", path, nil, nil, nil)
+	case "delver":
+		return cl.Call("DELETE", path, s3c.Q("versionId", p.versionID), nil, nil)
 	}
 	return nil, fmt.Errorf("bad op %q", c.Op)
 }
@@ -333,6 +346,14 @@ func versionsOf(lv *s3c.ListVersionsResult, key string) (string, string) {
 
 func expectVersions(c caseA, s state, isNew bool) string {
 	var items []string
+	if c.Op == "delver" {
+		if isNew {
+			return fmt.Sprintf("%s latest=true", etagOf(1, false))
+		}
+		items = []string{fmt.Sprintf("%s latest=false", etagOf(1, false)), fmt.Sprintf("%s latest=true", etagOf(2, false))}
+		sort.Strings(items)
+		return strings.Join(items, "; ")
+	}
 	old := fmt.Sprintf("%s latest=%v", etagOf(1, false), !isNew)
 	if c.Prior {
 		items = append(items, old)
@@ -407,6 +428,10 @@ func execA(c caseA, each func(crashRun)) (n int, err error) {
 	}
 	if c.Op == "part" {
 		newS = oldS // the key itself is not touched by UploadPart
+	}
+	if c.Op == "delver" {
+		// deleting the current version by id makes the archived one current again
+		oldS, newS = state{Present: true, W: 2}, state{Present: true, W: 1}
 	}
 	// probe run: which hook points does the operation pass?
 	key0 := "k0/obj"
@@ -497,7 +522,7 @@ func execA(c caseA, each func(crashRun)) (n int, err error) {
 			isNew = true
 		default:
 			class := ""
-			if c.Sidecar && c.Prior && v.Get.Status == 200 && bytes.Equal(v.Get.Body, bodies[1]) {
+			if c.Sidecar && oldS.Present && v.Get.Status == 200 && bytes.Equal(v.Get.Body, bodies[oldS.W]) {
 				class = " [sidecar metadata store: previous data with rewritten or removed metadata]"
 			}
 			return fmt.Errorf("%s: after restart the key is neither in its previous state (%s: %s) nor in the new state (%s: %s)%s", where, oldS, whyOld, newS, whyNew, class)
@@ -722,9 +747,12 @@ func TestC11A(t *testing.T) {
 		c.Sidecar = rapid.Bool().Draw(t, "sidecar")
 		c.Versioned = rapid.Bool().Draw(t, "versioned")
 		c.Prior = rapid.Bool().Draw(t, "prior_present")
-		c.Op = rapid.SampledFrom([]string{"put", "put", "copy", "mpu", "delete", "part"}).Draw(t, "op")
-		if c.Op == "delete" {
+		c.Op = rapid.SampledFrom([]string{"put", "put", "copy", "mpu", "delete", "part", "delver"}).Draw(t, "op")
+		if c.Op == "delete" || c.Op == "delver" {
 			c.Prior = true
+		}
+		if c.Op == "delver" {
+			c.Versioned = true
 		}
 		c.All = thorough
 		if !c.All {
